@@ -704,6 +704,7 @@ class QueryGarbageCollector(BaseGarbageCollector):
 
     # the same for SQLite, where the expiration can be compared as a number:
     # as text, '5' and '1700000000000' are not ordered like the numbers they denote
+    # (text functions stop at an embedded NUL, the byte length does not)
     sqlite_query = """
         DELETE FROM events WHERE events.id IN
         (
@@ -716,6 +717,7 @@ class QueryGarbageCollector(BaseGarbageCollector):
                     tags.name = 'expiration'
                     AND tags.value NOT GLOB '*[^0-9]*'
                     AND length(tags.value) BETWEEN 1 AND 18
+                    AND length(CAST(tags.value AS BLOB)) = length(tags.value)
                     AND CAST(tags.value AS INTEGER) < %NOW%
                 )
         )
